@@ -97,10 +97,12 @@ def gen_default(r, typ, allow_code=True):
     if typ is not None and typ.startswith("Optional[") and r.random() < 0.3:
         return ("val", None)
     b = base_of(typ)
+    # the falsy value of each type is a boundary of its own (truthiness tests in the code): a quarter of the draws
+    zero = r.random() < 0.25
     if b == "int":
-        return ("val", r.choice(INTS))
+        return ("val", 0 if zero else r.choice(INTS))
     if b == "float":
-        return ("val", r.choice(FLOATS))
+        return ("val", 0.0 if zero else r.choice(FLOATS))
     if b == "bool":
         return ("val", r.choice([True, False]))
     if b == "str":
@@ -128,10 +130,96 @@ def gen_param(r, rich=True, p_typ=0.85, p_doc=0.85):
     return p
 
 
-def gen_ir(r, maxp=5, kwargs=True, returns=True, rich=True, p_typ=0.85, p_doc=0.85):
+F_TYPS = ["int", "str", "float", "bool", "Optional[int]", "Optional[str]", "Optional[bool]", "List[str]", "List[int]",
+          "Literal['alpha', 'beta']", "Union[int, float]", "np.ndarray", None]  # fmt: skip
+F_DOCS = ["plain", None, "comma", "optional-prefix", "two-sentences"]
+F_DEFS = ["absent", "none", "zero", "nonzero", "code"]
+F_SIZE = len(F_TYPS) * len(F_DOCS) * len(F_DEFS) * 3
+_focus = {"i": None}
+P_FOCUS = 0.35
+
+
+def focus_ir(r, p_typ=0.85, p_doc=0.85, returns=True):
+    """
+    Small-scope enumeration: a description of three parameters where ONE entry takes, call after call, every
+    combination of (type shape x prose shape x default shape) at every position, between two plain neighbours.
+    The walk starts at an offset drawn from the run's PRNG and advances by one per call, so a run of n calls covers
+    n consecutive combinations and the thorough tier covers all of them several times.
+    """
+    if _focus["i"] is None:
+        _focus["i"] = r.randrange(F_SIZE)
+    i = _focus["i"] = (_focus["i"] + 1) % F_SIZE
+    pos, i = i % 3, i // 3
+    dk, i = F_DEFS[i % len(F_DEFS)], i // len(F_DEFS)
+    pk, i = F_DOCS[i % len(F_DOCS)], i // len(F_DOCS)
+    typ = F_TYPS[i % len(F_TYPS)]
+    if typ is None and p_typ >= 1.0:
+        typ = "int"
+    if pk is None and p_doc >= 1.0:
+        pk = "plain"
+    f = {}
+    if typ is not None:
+        f["typ"] = typ
+    if pk is not None:
+        f["doc"] = {"plain": prose(r, 2, 5, punct=False, rich=False), "comma": "the loss, averaged over batches, twice",
+                    "optional-prefix": r.choice(["(Optional) ", "Optional "]) + prose(r, 2, 4, punct=False, rich=False),
+                    "two-sentences": "First part of it. Second sentence"}[pk]  # fmt: skip
+    b = base_of(typ)
+    if dk == "none":
+        f["default"] = None
+    elif dk == "code":
+        f["default"] = r.choice(["```n```", "```x```", "```(1, 2)```", "```foo(1)```", "```np.zeros(3)```"])
+    elif dk in ("zero", "nonzero"):
+        z = dk == "zero"
+        if b == "int":
+            f["default"] = 0 if z else r.choice([5, -3, 1])
+        elif b == "float":
+            f["default"] = 0.0 if z else r.choice([0.5, -1.5, 1.0])
+        elif b == "bool":
+            f["default"] = not z
+        elif b == "str":
+            f["default"] = "" if z else r.choice(["mnist", "a b", "8080"])
+        elif typ is None:
+            f["default"] = r.choice([0, False, 0.0]) if z else r.choice([3, True, 0.25, "word"])
+        elif typ.startswith("Literal["):
+            f["default"] = "beta" if z else "alpha"
+        elif typ == "List[int]":
+            f["default"] = "```[]```" if z else "```[1, 2]```"
+        elif typ == "Union[int, float]":
+            f["default"] = 0 if z else 1.5
+        else:
+            f["default"] = "```[]```" if z else "```['a']```"
+    names = r.sample(NAMES, 3)
+    params = []
+    for k, nm in enumerate(names):
+        if k == pos:
+            params.append((nm, f))
+        else:
+            t = r.choice(["int", "str", "float"])
+            q = {"typ": t, "doc": prose(r, 2, 5, punct=False, rich=False)}
+            if r.random() < 0.5:
+                q["default"] = {"int": 7, "str": "word", "float": 2.5}[t]
+            params.append((nm, q))
+    ret = None
+    if returns and r.random() < 0.3:
+        ret = {"typ": r.choice(["int", "str", "List[int]"]), "doc": prose(r, 2, 4, punct=False, rich=False)}
+    return {"doc": prose(r, 2, 6, rich=False), "params": params, "returns": ret}
+
+
+def gen_ir(r, maxp=5, kwargs=True, returns=True, rich=True, p_typ=0.85, p_doc=0.85, focus=True):
+    if focus and maxp >= 3 and r.random() < P_FOCUS:
+        return focus_ir(r, p_typ, p_doc, returns)
     n = r.randint(0, maxp)
     names = r.sample(NAMES, n)
     params = [(nm, gen_param(r, rich, p_typ, p_doc)) for nm in names]
+    if rich and params and r.random() < 0.2:
+        # a back-tick quoted code default under a subscripted type: the shape of code default the class kind (and, for
+        # str-mentioning types or without default text, the function and docstring kinds) carries faithfully; short and
+        # long expressions, no '.' before a bracket
+        k = r.randrange(len(params))
+        params[k] = (params[k][0], {"typ": r.choice(["List[str]", "Optional[List[str]]", "Union[str, int]", "Tuple[str, int]", "Optional[int]", "List[int]", "Union[int, float]"]),
+                                    "doc": prose(r, rich=False),
+                                    "default": r.choice(["```n```", "```5```", "```x```", "```(1, 2)```", "```[1, 2]```", "```foo(1)```", "```{'a': 1}```"])})  # fmt: skip
     if kwargs and r.random() < 0.2:
         kw = {"typ": "Optional[dict]", "doc": prose(r, rich=rich)}
         if r.random() < 0.3:
